@@ -265,6 +265,8 @@ class Gen:
         sid = None
         step = {'op': 'scope', 'n': notif,
                 'children': [], 'catch': rng.random() < 0.6}
+        if rng.random() < 0.12:
+            step['manual'] = True       # entered and left through __aenter__ / __aexit__ calls
         for _ in range(rng.randint(0, 3)):
             step['children'].append(self.child(depth))
         step['body'] = self.steps(depth + 1, rng.randint(0, 3))
